@@ -169,10 +169,10 @@ func c19Check(c *Case) []Violation {
 				}
 				lo, hi := prev.Range(cr)
 				want := boundRef(v+(hi-lo)*mapped[a.ID][cr.ID], lo, hi, bscaling, nonneg)
-				if !near(got, want) {
+				if !nearScale(got, want, math.Max(math.Abs(v), math.Max(math.Abs(lo), math.Abs(hi)))*(1+math.Abs(mapped[a.ID][cr.ID]))) {
 					vs = append(vs, viol(c, "C19/inline/value", "alternative %s criterion %s: %v became %v, expected bound(v + range*mapped) = %v (mapped %v, range [%v,%v])", a.ID, cr.ID, v, got, want, mapped[a.ID][cr.ID], lo, hi))
 				}
-				if rd := reported[a.ID]; rd == nil || !near(asF(rd[cr.ID]), got-v) {
+				if rd := reported[a.ID]; rd == nil || !nearScale(asF(rd[cr.ID]), got-v, math.Max(math.Abs(got), math.Abs(v))) {
 					vs = append(vs, viol(c, "C19/inline/reported-difference", "alternative %s criterion %s: reported difference %v, new-old = %v", a.ID, cr.ID, reported[a.ID][cr.ID], got-v))
 				}
 			}
@@ -320,7 +320,7 @@ func c19Run(s *Shard) {
 	sampled := false
 	for _, method := range allMethods {
 		for _, subset := range []bool{false, true} {
-			for _, variant := range []int{0, 1, 2, 3} { // observed range, declared range, degenerate c3, strictly negative c1
+			for _, variant := range []int{0, 1, 2, 3, 4} { // observed range, declared range, degenerate c3, strictly negative c1, c3 at 1e-9 scale
 				root := rootRequest(method, subset, variant == 1)
 				if variant == 2 {
 					for _, a := range asL(root["knownAlternatives"]) {
@@ -329,6 +329,9 @@ func c19Run(s *Shard) {
 				}
 				if variant == 3 {
 					root = negativeVariant(root)
+				}
+				if variant == 4 {
+					root = tinyVariant(root)
 				}
 				for pi, pre := range prefixes {
 					if variant >= 2 && pi > 0 {
